@@ -407,16 +407,27 @@ class EvolveJudge(Judge):
     def setup(self, obj):
         if self.a is None:
             self.a = self._pkg(obj['specA'])
+            self.info = {}
         key = json.dumps(obj['edits'], sort_keys=True)
-        if key not in self.bs:
-            if len(self.bs) > 40:      # bound memory: drop the oldest package
-                k0 = next(iter(self.bs))
-                self.bs.pop(k0)['gen'].close()
-            self.bs[key] = self._pkg(obj['specB'], any(e['e'] == 'add_route' for e in obj['edits']))
-            self.bs[key]['ren'] = dict(obj['ren']) if isinstance(obj['ren'], dict) else {}
-            self.bs[key]['specB'] = obj['specB']
-            self.bs[key]['edits'] = obj['edits']
+        if key not in self.info:
+            # the schema vectors of a breadth-first run all come before the value vectors: remember the history, build
+            # its package on first use (package()), keep at most 40 packages alive
+            self.info[key] = {'specB': obj['specB'], 'edits': obj['edits'],
+                              'ren': dict(obj['ren']) if isinstance(obj['ren'], dict) else {}}
             self.count('histories')
+
+    def package(self, key):
+        if key in self.bs:
+            self.bs[key] = self.bs.pop(key)         # most recently used last
+            return self.bs[key]
+        if len(self.bs) >= 40:
+            k0 = next(iter(self.bs))
+            self.bs.pop(k0)['gen'].close()
+        inf = self.info[key]
+        b = self._pkg(inf['specB'], any(e['e'] == 'add_route' for e in inf['edits']))
+        b.update(ren=inf['ren'], specB=inf['specB'], edits=inf['edits'])
+        self.bs[key] = b
+        return b
 
     def finish(self):
         if self.a:
@@ -434,7 +445,7 @@ class EvolveJudge(Judge):
             return
         self.n += 1
         key = json.dumps(obj['edits'], sort_keys=True)
-        b = self.bs[key]
+        b = self.package(key)
         a = self.a
         ren = b['ren']                      # B-name -> A-name
         inv = {v: k for k, v in ren.items()}
